@@ -19,17 +19,24 @@ def text_join(state: StateCore) -> None:
         if inline_token.type != "inline":
             continue
 
-        # convert text_special to text and join all adjacent text nodes
-        new_tokens: list[Token] = []
-        for child_token in inline_token.children or []:
-            if child_token.type == "text_special":
-                child_token.type = "text"
-            if (
-                child_token.type == "text"
-                and new_tokens
-                and new_tokens[-1].type == "text"
-            ):
-                new_tokens[-1].content += child_token.content
-            else:
-                new_tokens.append(child_token)
-        inline_token.children = new_tokens
+        inline_token.children = _join(inline_token.children or [])
+
+
+def _join(children: list[Token]) -> list[Token]:
+    # convert text_special to text and join all adjacent text nodes
+    new_tokens: list[Token] = []
+    for child_token in children:
+        if child_token.type == "text_special":
+            child_token.type = "text"
+        if child_token.type == "image" and child_token.children:
+            # the image description is an inline sequence of its own
+            child_token.children = _join(child_token.children)
+        if (
+            child_token.type == "text"
+            and new_tokens
+            and new_tokens[-1].type == "text"
+        ):
+            new_tokens[-1].content += child_token.content
+        else:
+            new_tokens.append(child_token)
+    return new_tokens
